@@ -183,6 +183,23 @@ Section Plan.
     if in_scope false (ri_url p) p tries then fetch maxredir p tries (ri_url p) true
     else [ACheckIn Skipped].
 
+  (* the URLs a visit of the record [p] (checked out with [tries]) adds to the table *)
+  Fixpoint adds_of (l : list action) : list rinfo :=
+    match l with
+    | [] => []
+    | AAddMany k :: l' => k ++ adds_of l'
+    | _ :: l' => adds_of l'
+    end.
+  Definition kids (p : rinfo) (tries : N) : list rinfo := adds_of (plan p tries).
+
+  (* "no fetch fails": from [u], at most [fuel] redirects lead to a page that is not an error *)
+  Fixpoint resolves (fuel : nat) (u : url) : bool :=
+    match site u with
+    | Doc _ _ | NoDoc _ => true
+    | Err _ => false
+    | Redirect _ None => false
+    | Redirect _ (Some t) => match fuel with O => false | S f => resolves f t end
+    end.
 End Plan.
 
 Section Engine.
